@@ -150,6 +150,15 @@ theorem takeWhile_digits_append (a : List Ch) (c : Ch) (rest : List Ch) (ha : a.
     obtain ⟨i1, i2⟩ := ih ha.2
     simp [List.takeWhile_cons, List.dropWhile_cons, ha.1, i1, i2]
 
+theorem takeWhile_digits_append' {α} (p : α → Bool) (a : List α) (c : α) (rest : List α) (ha : a.all p = true)
+    (hc : p c = false) : (a ++ c :: rest).takeWhile p = a ∧ (a ++ c :: rest).dropWhile p = c :: rest := by
+  induction a with
+  | nil => simp [List.takeWhile_cons, List.dropWhile_cons, hc]
+  | cons x xs ih =>
+    simp only [List.all_cons, Bool.and_eq_true] at ha
+    obtain ⟨i1, i2⟩ := ih ha.2
+    simp [List.takeWhile_cons, List.dropWhile_cons, ha.1, i1, i2]
+
 theorem digitsToNat_zeros (k : Nat) (s : List Ch) : digitsToNat (List.replicate k 48 ++ s) = digitsToNat s := by
   unfold digitsToNat
   rw [List.foldl_append]
